@@ -113,6 +113,35 @@ Fixpoint mtrace (s : mstate) (ops : list (nat * op Qc expr)) : list mstate :=
   end.
 Definition mread (s : mstate) : list expr := map (fun p => read_e (fst p) (snd p)) s.
 
+(* ---- histories in which the BOUNDS of the parameter are replaced ---------------------------
+   The bounds of a constraint are module state (buffers lower_bound / upper_bound, part of the state dict),
+   the constraint object itself can be exchanged (Module.register_constraint).  State: the constraint IN
+   FORCE and the cell.  Every read / assignment / rejection consults the constraint in force - nothing
+   derived from earlier bounds (a width, an initial value) survives a replacement.
+     BOp o          an ordinary operation (Set_ / InitCons / InitRaw / Step)
+     BReplace c'    register_constraint(raw_<param>, c') / load_state_dict of the bound buffers only /
+                    (with c' = the constraint in force) .double() .to() .cpu() deepcopy pickle: raw value kept
+     BLoad c' r     load_state_dict from a module built with constraint c' whose raw value is r *)
+Inductive bop : Type :=
+| BOp (o : op Qc expr) | BReplace (c' : cons) | BLoad (c' : cons) (r : expr).
+Definition bstate : Type := (cons * cell expr)%type.
+Definition bstep (s : bstate) (o : bop) : bstate :=
+  match o with
+  | BOp o' => (fst s, step_e (fst s) (snd s) o')
+  | BReplace c' => (c', snd s)
+  | BLoad c' r => (c', (r, snd (snd s)))
+  end.
+Fixpoint btrace (s : bstate) (ops : list bop) : list bstate :=
+  match ops with
+  | [] => []
+  | o :: r => let s' := bstep s o in s' :: btrace s' r
+  end.
+Definition bread (s : bstate) : expr := read_e (fst s) (snd s).
+(* what a transform that kept the WIDTH of earlier bounds (u0 - l0) would read under new bounds (l, u):
+   only used by the refutation theorem c17_stale_width_refuted *)
+Definition transform_stale_e (l : Qc) (w0 : Qc) (x : expr) : expr :=
+  EAdd (EMul (e_sigmoid x) (EConst w0)) (EConst l).
+
 (* ---- prior log densities (documented formulas) ------------------------------------------- *)
 Definition e_half : expr := EConst (qc 1 2).
 Definition e_sq (x : expr) : expr := EMul x x.
@@ -201,6 +230,12 @@ Definition run_mhistory (c : list (cons * Qc) * list (nat * op Qc expr)) : list 
               ser_list (fun p : cons * cell expr => Z.of_nat (snd (snd p)) :: ser_expr (read_e (fst p) (snd p))) s)
            (mtrace (map (fun p => (fst p, (EConst (snd p), O))) cs) ops).
 
+(* history with bound replacements: constraint, initial raw, ops -> per op: rejected-count, read term
+   under the constraint in force after the op *)
+Definition run_bhistory (c : cons * Qc * list bop) : list Z :=
+  let '(k, r0, ops) := c in
+  ser_list (fun s : bstate => Z.of_nat (snd (snd s)) :: ser_expr (bread s)) (btrace (k, (EConst r0, O)) ops).
+
 Inductive prior_cfg :=
 | PNormal (mu s : Qc) | PLogNormal (mu s : Qc) | PHalfNormal (s : Qc) | PGamma (a b : Qc)
 | PHalfCauchy (s : Qc) | PUniform (a b : Qc) | PSmoothedBox (a b s : Qc) | PHorseshoe (s : Qc).
@@ -254,11 +289,13 @@ Inductive c17_case :=
 | KHistory (c : cons * Qc * list (op Qc expr)) | KPrior (c : prior_cfg * list Qc)
 | KLKJ (c : nat * Qc * list Qc) | KPriorT (c : prior_cfg * nat * list Qc)
 | KMVN (c : nat * list Qc * list (list Qc) * list Qc)
-| KMHistory (c : list (cons * Qc) * list (nat * op Qc expr)).
+| KMHistory (c : list (cons * Qc) * list (nat * op Qc expr))
+| KBHistory (c : cons * Qc * list bop).
 
 Definition run_c17 (k : c17_case) : list Z :=
   match k with
   | KTransform c => run_transform c | KTransformE c => run_transform_e c | KInverse c => run_inverse c
   | KHistory c => run_history c | KPrior c => run_prior c | KLKJ c => run_lkj c
   | KPriorT c => run_prior_tr c | KMVN c => run_mvn c | KMHistory c => run_mhistory c
+  | KBHistory c => run_bhistory c
   end.
